@@ -78,6 +78,18 @@ def reorder(structure, rng, mode):
     res = list(structure.residues)
     if mode == "reversed":
         res.reverse()
+    elif mode == "interleaved":
+        # a chain whose residues re-appear after another chain's (A.., B.., A..): chain ids are not contiguous in file order
+        blocks = {}
+        for r in res:
+            blocks.setdefault(r.chain, []).append(r)
+        keys = list(blocks)
+        first = blocks[keys[0]]
+        h = max(1, len(first) // 2)
+        if len(keys) > 1:
+            res = first[:h] + [r for k in keys[1:] for r in blocks[k]] + first[h:]
+        else:
+            return relabel_second_half(structure)
     else:
         blocks = {}
         for r in res:
@@ -90,6 +102,21 @@ def reorder(structure, rng, mode):
             h = len(res) // 2
             res = res[h:] + res[:h]
     return Structure3D(res)
+
+
+def relabel_second_half(structure):
+    """single-chain structure -> the middle third gets another chain id, so the original chain id re-appears after it"""
+    from rnapolis.common import ResidueAuth
+    n = len(structure.residues)
+    lo, hi = n // 3, 2 * n // 3
+    state = {"k": -1}
+
+    def ident(label, auth):
+        state["k"] += 1
+        if auth is None or not (lo <= state["k"] < hi):
+            return (None if auth is not None else label), auth
+        return None, ResidueAuth(auth.chain + "x", auth.number, auth.icode, auth.name)
+    return rebuild(structure, ident_fn=ident)
 
 
 def icode_twins(structure, rng):
